@@ -7,6 +7,7 @@ All theorems for an arbitrary `C : Crypto`; nothing is assumed about SHA-1 or HM
 import WowSrp.Model.Integrity
 import WowSrp.Lemmas.Layout
 namespace WowSrp
+open WowSrp.Layout
 
 /-- **all three entry points are one function**: Windows, Mac and single-buffer variants return
     SHA-1(client public key | HMAC-SHA1(salt, f1 | f2 | f3 | f4 | f5)) -/
